@@ -17,6 +17,10 @@ use std::sync::atomic::{AtomicBool, AtomicU64, Ordering};
 use std::sync::{Mutex, Once};
 use std::time::Instant;
 
+/// Fuzz targets as sub-checks + the libFuzzer stage of the thorough tier (`Ctx::fuzz*`).
+#[path = "fuzzstage.rs"]
+pub mod fuzzstage;
+
 pub const LANES: usize = 16;
 pub const DEFAULT_SEED: u64 = 20260921;
 
@@ -125,6 +129,9 @@ pub struct Ctx {
     violations: Vec<(String, String, PathBuf)>, // (sub, signature, replay)
     known_hits: BTreeMap<String, u64>,
     inconclusive: Vec<String>,
+    /// reasons that make the whole run INCONCLUSIVE (exit 2) unless a violation was found:
+    /// fuzz build failure, libFuzzer stage could not run, resource-bound artifact
+    hard_inconclusive: Vec<String>,
     assumptions: Vec<String>,
     extra: BTreeMap<String, Value>,
     replay_only: Option<PathBuf>,
@@ -230,6 +237,7 @@ impl Ctx {
             violations: vec![],
             known_hits: BTreeMap::new(),
             inconclusive: vec![],
+            hard_inconclusive: vec![],
             assumptions: vec![],
             extra: BTreeMap::new(),
             replay_only: None,
@@ -323,7 +331,8 @@ impl Ctx {
         for f in files {
             let Ok(bytes) = std::fs::read(&f) else { continue };
             let Ok(rf) = serde_json::from_slice::<ReplayFile>(&bytes) else {
-                if self.replay_only.is_some() {
+                // raw (non-JSON) replay files belong to the fuzz:<target> sub-checks (fuzzstage.rs)
+                if self.replay_only.is_some() && f.extension().map(|e| e == "json").unwrap_or(false) {
                     eprintln!("replay file {} does not parse", f.display());
                 }
                 continue;
@@ -662,7 +671,7 @@ impl Ctx {
             "subchecks": subs_json,
             "excluded_known": self.subs.iter().map(|s| s.excluded_known).sum::<u64>(),
             "known_finding_hits": self.known_hits,
-            "inconclusive": self.inconclusive,
+            "inconclusive": self.inconclusive.iter().chain(self.hard_inconclusive.iter()).collect::<Vec<_>>(),
             "exhaustive": !self.subs.is_empty() && self.subs.iter().all(|s| s.exhaustive),
         });
         for (k, v) in &self.extra {
@@ -694,6 +703,14 @@ impl Ctx {
             1
         } else if evaluations == 0 && self.replay_only.is_none() {
             println!("INCONCLUSIVE property={} nothing evaluated", self.id);
+            for i in &self.hard_inconclusive {
+                println!("INCONCLUSIVE property={} {}", self.id, i);
+            }
+            2
+        } else if !self.hard_inconclusive.is_empty() {
+            for i in &self.hard_inconclusive {
+                println!("INCONCLUSIVE property={} {}", self.id, i);
+            }
             2
         } else if !self.inconclusive.is_empty() && self.inconclusive.iter().any(|s| s.contains("aborted") || s.contains("did not reproduce")) {
             for i in &self.inconclusive {
